@@ -83,7 +83,9 @@ def annotate_citations(
         # if we're applying to source_text, update offsets
         if offset_updater:
             start = offset_updater.update(start, bisect_right)
-            end = offset_updater.update(end, bisect_left)
+            # start and end are shifted in opposite directions around
+            # replaced text, which must not turn an empty span inside out
+            end = max(start, offset_updater.update(end, bisect_left))
 
         # handle overlaps
         if start < last_end:
